@@ -890,3 +890,31 @@ def _any_all(interp, st, x, is_any):
                 else:
                     yield from go(items[1:], s3)
         yield from go(r[1], s)
+
+
+# ---------------------------------------------------------------------------------------------- total constructors
+import io as _io
+
+TOTAL_CTORS = {bytearray: (bytes,), _io.BytesIO: (bytes,)}
+
+
+@handler("$call_const_symbolic")
+def call_const_symbolic(interp: Interp, st: St, o, args, kwargs):
+    """Constructors that are total on a given argument class: the class of the argument becomes an obligation."""
+    try:
+        allowed = TOTAL_CTORS.get(o)
+    except TypeError:
+        allowed = None
+    if allowed is not None and len(args) == 1 and not kwargs:
+        at = interp.term(st, args[0])
+        goal = z3.Or(*[T.F_cls(at) == interp.reg.cls(k) for k in allowed])
+        interp.add_obligation(st, f"callee-pre/{o.__name__}", goal, kind="callee-pre")
+        interp.ctx.assume_note(f"`{o.__name__}(x)` is total and allocates a new object for x of class "
+                               f"{'/'.join(k.__name__ for k in allowed)}")
+        t = T.app_fn(o.__name__, 1)(at)
+        st.assume(T.F_cls(t) == interp.reg.cls(o))
+        v = V("sym", t=t, ty=o)
+        v.tag = ("fresh_container",)
+        yield st, ("ok", v)
+        return
+    raise Unsupported(f"call of {o!r} on symbolic arguments")
